@@ -13,6 +13,7 @@ import (
 	"unicode/utf8"
 
 	"github.com/cockroachdb/errors"
+	"github.com/cockroachdb/errors/errbase"
 
 	"verif/mc/core"
 	"verif/mc/tm"
@@ -113,16 +114,16 @@ func parseVerbose(out string) (*parsedVerbose, string) {
 
 // detailMarkers maps a library type to what its own entry must show.
 var detailMarkers = map[string]string{
-	"*withstack.withStack":         "stack trace",
-	"*assert.withAssertionFailure": "assertion failure",
-	"*exthttp.withHTTPCode":        "http code: 404",
-	"*extgrpc.withGrpcCode":        "gRPC code: ",
-	"*telemetrykeys.withTelemetry": "keys: [",
-	"*contexttags.withContext":     "tags: [",
-	"*domains.withDomain":          "error domain: ",
+	"*withstack.withStack":          "stack trace",
+	"*assert.withAssertionFailure":  "assertion failure",
+	"*exthttp.withHTTPCode":         "http code: 404",
+	"*extgrpc.withGrpcCode":         "gRPC code: ",
+	"*telemetrykeys.withTelemetry":  "keys: [",
+	"*contexttags.withContext":      "tags: [",
+	"*domains.withDomain":           "error domain: ",
 	"*secondary.withSecondaryError": "secondary error attachment",
-	"*barriers.barrierErr":         "-- cause hidden behind barrier",
-	"*markers.withMark":            "forced error mark",
+	"*barriers.barrierErr":          "-- cause hidden behind barrier",
+	"*markers.withMark":             "forced error mark",
 }
 
 func checkVerbose(e error, t *tm.Term, newlineFree bool) string {
@@ -229,6 +230,41 @@ func checkVerbose(e error, t *tm.Term, newlineFree bool) string {
 	for i, ind := range p.indent {
 		if strings.Contains(ind, "└─") && !hasMulti {
 			return fail("verbose-indent", "entry (%d) is indented as a multi-cause branch but the error has no multi-cause node", i+1)
+		}
+	}
+	// numbering and indentation: entries are numbered node first, then its
+	// branches last-to-first, then its single cause; an entry below a
+	// multi-cause node at tree depth d >= 2 is indented by d-2 double
+	// spaces and "└─ "
+	type exp struct {
+		ty     string
+		indent string
+	}
+	var want []exp
+	var ew func(n error, under bool, depth int)
+	ew = func(n error, under bool, depth int) {
+		ind := ""
+		if under && depth >= 2 {
+			ind = strings.Repeat("  ", depth-2) + "└─ "
+		}
+		want = append(want, exp{fmt.Sprintf("%T", n), ind})
+		bs := unwrapMulti(n)
+		for k := len(bs) - 1; k >= 0; k-- {
+			ew(bs[k], true, depth+1)
+		}
+		if c := errbase.UnwrapOnce(n); c != nil {
+			ew(c, under, depth+1)
+		}
+	}
+	ew(e, false, 0)
+	if len(want) == len(p.types) && len(p.indent) == len(p.types) {
+		for i := range want {
+			if want[i].ty != p.types[i] {
+				return fail("verbose-order", "entry (%d) is listed with type %s; numbering the layers node, branches, cause gives %s", i+1, p.types[i], want[i].ty)
+			}
+			if want[i].indent != p.indent[i] {
+				return fail("verbose-indent-depth", "entry (%d) (%s) is indented %q, its depth below the multi-cause node calls for %q", i+1, p.types[i], p.indent[i], want[i].indent)
+			}
 		}
 	}
 	return ""
